@@ -4,6 +4,7 @@
 here=$(cd "$(dirname "$0")/.." && pwd)
 copy=$(dirname "$here")/repo-copy-$$
 rsync -a --exclude target /repo/ "$copy"/
+git -C "$copy" checkout -q -- .
 export VERIF_REPO="$copy"
 cd "$here"
 python3 tools/seeded.py "$@" 2>&1 | cut -c1-160
